@@ -29,6 +29,15 @@ fixes/C17-turn-3f7f.diff are two source shapes of two statements; every theorem 
 (`current_shape`); `turn_on_3f7f_counterexample` is about `Shape.unrepaired`, `turn_on_3f7f_repaired` about
 `Shape.repaired`; in the repaired shape `walk_refines` has no wildcard look-up and no `StartOk`, and the hypothesis
 `S != VBI_ANY_SUBNO` of the search_exact theorems is void (`sh.startExact = true ∨ ...`).
+
+Finding F17 / C17-D2 and its repair fixes/C10-put-replaces-all-versions.diff are two source shapes of
+`_vbi_cache_put_page` (`putF fix`: `put` as found, `putR` repaired - a store under a single-version key deletes every
+other cached page of the page number); which one /repo has is read by translate/gen_cache.py
+(`Zvbi.Gen.Cache.putReplacesAllVersions`, `putCur` is what the driver runs: `current_store_shape`).  Every theorem about
+reachable caches is stated for an arbitrary `fix` (`buildF fix ops`).  For `fix = false` the exclusion `NoWrap` stays a
+hypothesis; for `fix = true` it is a theorem (`nowrap_repaired`), `walk_complete_full true` is proved
+(`walk_complete_repaired`) and `search_exact_first_call_repaired` has no exclusion left.  `stats_count_256` (witness of
+the growth) is about the shape as found, `stats_count_repaired` the same history on the repaired shape.
 -/
 namespace Zvbi.Props.C17
 open Zvbi.Search
@@ -157,39 +166,74 @@ theorem walk_complete_first_sweep (sh : Shape) (c : Cache) (pgno subno : Int) (h
   · intro h; apply List.mem_cons_of_mem
     exact positions_complete_bwd c walkFuel pgno _ false hp (rankB_lt_fuel hp _ _) q t false hq hin (Or.inl ⟨rfl, h⟩)
 
-/-- **stats_invariant.** (STRENGTHENED: lower bound and exact count - C17-D3 repaired) After EVERY history of page
-stores (sub-codes as the decoder delivers them, <= 0x3F7F), by induction: `n_subpages` = number of cached pages of
-that number modulo 65536, `subno_min <= subno_max <= 0x3F7F`, nothing is cached under a page number xFF, and for every
-page number with fewer than 65536 cached pages `subno_min <= every cached sub-page number <= subno_max` (sub-page 0
-included) and `n_subpages != 0` when a page is cached: the statistics cover the cached pages (`Covered`).  A history of
-fewer than 65536 stores satisfies `NoWrap` outright. -/
-theorem stats_invariant (ops : List PutOp) (h : ∀ o ∈ ops, o.subno ≤ 0x3F7F) :
-    Inv (build ops) ∧ NoFF (build ops) ∧ (NoWrap (build ops) → Covered (build ops)) ∧
-    (ops.length < 65536 → NoWrap (build ops)) :=
-  ⟨foldl_inv ops h Cache.empty empty_inv, build_noFF ops, covered_of_inv (foldl_inv ops h Cache.empty empty_inv),
-   noWrap_of_few ops⟩
+/-- **stats_invariant.** (STRENGTHENED: lower bound and exact count - C17-D3 repaired; BOTH shapes of
+`_vbi_cache_put_page`, `fix`)  After EVERY history of page stores (sub-codes as the decoder delivers them, <= 0x3F7F),
+by induction: `n_subpages` = number of cached pages of that number modulo 65536, `subno_min <= subno_max <= 0x3F7F`,
+nothing is cached under a page number xFF, and for every page number with fewer than 65536 cached pages
+`subno_min <= every cached sub-page number <= subno_max` (sub-page 0 included) and `n_subpages != 0` when a page is
+cached: the statistics cover the cached pages (`Covered`).  A history of fewer than 65536 stores satisfies `NoWrap`
+outright; on the REPAIRED shape (`fix = true`, fixes/C10-put-replaces-all-versions.diff) EVERY history does - at most 256
+pages are cached under one page number - so there the statistics cover the cached pages unconditionally. -/
+theorem stats_invariant (fix : Bool) (ops : List PutOp) (h : ∀ o ∈ ops, o.subno ≤ 0x3F7F) :
+    Inv (buildF fix ops) ∧ NoFF (buildF fix ops) ∧ (NoWrap (buildF fix ops) → Covered (buildF fix ops)) ∧
+    (ops.length < 65536 → NoWrap (buildF fix ops)) ∧
+    (fix = true → NoWrap (buildF fix ops) ∧ Covered (buildF fix ops) ∧
+      ∀ p, ((buildF fix ops).slots p).chain.length ≤ 256) :=
+  ⟨buildF_inv fix ops h, buildF_noFF fix ops, covered_of_inv (buildF_inv fix ops h), noWrapF_of_few fix ops,
+   fun hf => by
+     subst hf
+     exact ⟨noWrap_repaired ops, covered_of_inv (buildF_inv true ops h) (noWrap_repaired ops),
+       version_bound_repaired ops⟩⟩
 
-example : Covered (build [⟨0x100, 0, 0, []⟩, ⟨0x100, 5, 0, []⟩]) :=
-  (stats_invariant _ (by decide)).2.2.1 ((stats_invariant _ (by decide)).2.2.2 (by decide))
+example : Covered (buildF false [⟨0x100, 0, 0, []⟩, ⟨0x100, 5, 0, []⟩]) :=
+  (stats_invariant false _ (by decide)).2.2.1 ((stats_invariant false _ (by decide)).2.2.2.1 (by decide))
+
+example : Covered (buildF true [⟨0x100, 1, 0, []⟩, ⟨0x100, 0x100, 0, []⟩]) :=
+  ((stats_invariant true _ (by decide)).2.2.2.2 rfl).2.1
+
+/-- **nowrap_repaired.** (NEW; what becomes of the hypothesis `NoWrap` - finding C17-D2 - with
+fixes/C10-put-replaces-all-versions.diff)  On the repaired shape of `_vbi_cache_put_page` the cached pages of one page
+number have pairwise different keys (`subno % 256` for BCD page numbers, `subno % 16` for the others: `Distinct`, an
+invariant of the store), so at most 256 are cached and the 16 bit counter `n_subpages` never wraps: `NoWrap` holds after
+ANY history, no bound on sub-codes or on the length of the history needed.  For the shape as found it stays a hypothesis
+(`stats_count_256`: the count grows by one per pair of stores). -/
+theorem nowrap_repaired (ops : List PutOp) :
+    Distinct (buildF true ops) ∧ (∀ p, ((buildF true ops).slots p).chain.length ≤ 256) ∧ NoWrap (buildF true ops) :=
+  ⟨buildR_distinct ops, version_bound_repaired ops, noWrap_repaired ops⟩
+
+example : ((buildF true [⟨0x100, 1, 0, []⟩, ⟨0x100, 0x100, 0, []⟩, ⟨0x100, 1, 0, []⟩, ⟨0x100, 0x100, 0, []⟩]).slots 0x100).chain.length = 1 := by
+  decide +kernel
 
 /-- **walk_complete_cached.** (STRENGTHENED: `Covered` is no longer assumed) After every history of page stores that
 has not wrapped the 16 bit counter `n_subpages` (`NoWrap`: fewer than 65536 pages cached under each page number - the
 explicit exclusion of C17-D2), every cached page is found at a probed position of the wrapped sweep, from every start
 position, in both directions: the look-up there returns the first page of the chain with that number. -/
-theorem walk_complete_cached (sh : Shape) (ops : List PutOp) (h : ∀ o ∈ ops, o.subno ≤ 0x3F7F) (hnw : NoWrap (build ops))
+theorem walk_complete_cached (fix : Bool) (sh : Shape) (ops : List PutOp) (h : ∀ o ∈ ops, o.subno ≤ 0x3F7F) (hnw : NoWrap (buildF fix ops))
     (pgno subno dir : Int) (hp : PgOk pgno) (hdir : dir = 1 ∨ dir = -1) (q : Nat) (hq : PgOk q) (e : Entry)
-    (he : e ∈ ((build ops).slots q).chain) :
-    ((q : Int), (e.subno : Int), true) ∈ walkPositions sh (build ops) pgno subno dir := by
-  apply walk_complete sh (build ops) pgno subno dir hp hdir q e.subno hq
-  obtain ⟨h1, h2, h3⟩ := (stats_invariant ops h).2.2.1 hnw q e he
+    (he : e ∈ ((buildF fix ops).slots q).chain) :
+    ((q : Int), (e.subno : Int), true) ∈ walkPositions sh (buildF fix ops) pgno subno dir := by
+  apply walk_complete sh (buildF fix ops) pgno subno dir hp hdir q e.subno hq
+  obtain ⟨h1, h2, h3⟩ := (stats_invariant fix ops h).2.2.1 hnw q e he
   rw [inRange_iff]
   unfold Cache.stat
   simp only [Int.toNat_natCast]
   exact ⟨h1, by omega, by omega⟩
 
-example : (((0x100 : Nat) : Int), ((0 : Nat) : Int), true) ∈ walkPositions Shape.unrepaired (build [⟨0x100, 0, 0, []⟩]) 0x555 7 (-1) :=
-  walk_complete_cached Shape.unrepaired [⟨0x100, 0, 0, []⟩] (by decide) (noWrap_of_few _ (by decide)) 0x555 7 (-1) ⟨by decide, by decide⟩
+example : (((0x100 : Nat) : Int), ((0 : Nat) : Int), true) ∈ walkPositions Shape.unrepaired (buildF false [⟨0x100, 0, 0, []⟩]) 0x555 7 (-1) :=
+  walk_complete_cached false Shape.unrepaired [⟨0x100, 0, 0, []⟩] (by decide) (noWrapF_of_few false _ (by decide)) 0x555 7 (-1) ⟨by decide, by decide⟩
     (Or.inr rfl) 0x100 ⟨by decide, by decide⟩ ⟨0, 0, [], 0⟩ (by decide +kernel)
+
+/-- **walk_complete_repaired.** (NEW: `walk_complete_full true`, the full-strength statement of Spec.lean, PROVED for the
+repaired shape of `_vbi_cache_put_page`)  After EVERY history of page stores - no `NoWrap` hypothesis - every cached
+page is found at a probed position of the wrapped sweep, from every start position, in both directions. -/
+theorem walk_complete_repaired : walk_complete_full true := by
+  intro sh ops pgno subno dir h hp hdir q e hq he
+  exact walk_complete_cached true sh ops h (noWrap_repaired ops) pgno subno dir hp hdir q hq e he
+
+example : (((0x100 : Nat) : Int), ((0x100 : Nat) : Int), true) ∈
+    walkPositions Shape.repaired (buildF true [⟨0x100, 1, 0, []⟩, ⟨0x100, 0x100, 0, []⟩]) 0x555 7 1 :=
+  walk_complete_repaired Shape.repaired _ 0x555 7 1 (by decide) ⟨by decide, by decide⟩ (Or.inl rfl) 0x100 ⟨0x100, 0, [], 0⟩
+    ⟨by decide, by decide⟩ (by decide +kernel)
 
 /-- **search_next_refines.** `vbi_search_next` = the status mapping applied to the fold of `search_page_fwd` /
 `search_page_rev` over the pages found at the walk positions from the current start position.  (`NoAny` dropped.) -/
@@ -231,57 +275,57 @@ theorem search_not_found_complete (sh : Shape) (exec : Exec) (c : Cache) (s : Se
 hypotheses `NoAny`, `Covered`, the window condition on the start page and `nCached != 0` are gone)  On every
 reachable cache (any store history, D2 excluded by `NoWrap`), from every start position (P, S) with an exact
 sub-page number: NOT_FOUND means that NO cached level one page contains the pattern. -/
-theorem search_exact_not_found (sh : Shape) (exec : Exec) (ops : List PutOp) (hops : ∀ o ∈ ops, o.subno ≤ 0x3F7F)
-    (hnw : NoWrap (build ops)) (s : SearchSt) (d : Int) (hd : d > 0) (hfresh : s.dir = 0) (hp : PgOk s.stopPgno0)
+theorem search_exact_not_found (fix : Bool) (sh : Shape) (exec : Exec) (ops : List PutOp) (hops : ∀ o ∈ ops, o.subno ≤ 0x3F7F)
+    (hnw : NoWrap (buildF fix ops)) (s : SearchSt) (d : Int) (hd : d > 0) (hfresh : s.dir = 0) (hp : PgOk s.stopPgno0)
     (hS : 0 ≤ s.stopSubno0 ∧ s.stopSubno0 ≤ 0xFFFF ∧ (sh.startExact = true ∨ s.stopSubno0 ≠ ANY_SUBNO))
-    (h : (searchNext sh exec walkFuel (build ops) s d).res = .ret SEARCH_NOT_FOUND) :
-    ∀ (p sub : Nat), PgOk p → ¬ Matches exec (build ops) p sub :=
-  searchNext_not_found_exact_fwd sh exec (build ops) s d hd hfresh (reachable sh ops hops hnw _ hp).1 hp
-    (reachable sh ops hops hnw _ hp).2 hS h
+    (h : (searchNext sh exec walkFuel (buildF fix ops) s d).res = .ret SEARCH_NOT_FOUND) :
+    ∀ (p sub : Nat), PgOk p → ¬ Matches exec (buildF fix ops) p sub :=
+  searchNext_not_found_exact_fwd sh exec (buildF fix ops) s d hd hfresh (reachableF fix sh ops hops hnw _ hp).1 hp
+    (reachableF fix sh ops hops hnw _ hp).2 hS h
 
 /-- **search_exact_first_success.** (NEW: the SUCCESS half of search_exact - "first in order" - forward, first call of
 a pass)  On every reachable cache (D2 excluded by `NoWrap`): when the first call of a pass from (P, S) reports SUCCESS,
 the page it returns is a valid page number, is cached as a level one page whose text contains the pattern, and no
 page containing the pattern comes before it in pass order (ascending (page, sub-page) from (P, S), wrapping once:
 `passRank`). -/
-theorem search_exact_first_success (sh : Shape) (exec : Exec) (ops : List PutOp) (hops : ∀ o ∈ ops, o.subno ≤ 0x3F7F)
-    (hnw : NoWrap (build ops)) (s : SearchSt) (d : Int) (hd : d > 0) (hfresh : s.dir = 0) (hp : PgOk s.stopPgno0)
+theorem search_exact_first_success (fix : Bool) (sh : Shape) (exec : Exec) (ops : List PutOp) (hops : ∀ o ∈ ops, o.subno ≤ 0x3F7F)
+    (hnw : NoWrap (buildF fix ops)) (s : SearchSt) (d : Int) (hd : d > 0) (hfresh : s.dir = 0) (hp : PgOk s.stopPgno0)
     (hS : 0 ≤ s.stopSubno0 ∧ s.stopSubno0 ≤ 0xFFFF ∧ (sh.startExact = true ∨ s.stopSubno0 ≠ ANY_SUBNO))
-    (h : (searchNext sh exec walkFuel (build ops) s d).res = .ret SEARCH_SUCCESS) :
-    PgOk (searchNext sh exec walkFuel (build ops) s d).st.pgPgno ∧
-    Matches exec (build ops) (searchNext sh exec walkFuel (build ops) s d).st.pgPgno
-      (searchNext sh exec walkFuel (build ops) s d).st.pgSubno ∧
-    ∀ q t : Nat, PgOk q → Matches exec (build ops) q t →
-      passRank s.stopPgno0 s.stopSubno0 (searchNext sh exec walkFuel (build ops) s d).st.pgPgno
-        (searchNext sh exec walkFuel (build ops) s d).st.pgSubno ≤ passRank s.stopPgno0 s.stopSubno0 q t :=
-  searchNext_first_success_fwd sh exec (build ops) s d hd hfresh (reachable sh ops hops hnw _ hp).1 hp
-    (reachable sh ops hops hnw _ hp).2 hS h
+    (h : (searchNext sh exec walkFuel (buildF fix ops) s d).res = .ret SEARCH_SUCCESS) :
+    PgOk (searchNext sh exec walkFuel (buildF fix ops) s d).st.pgPgno ∧
+    Matches exec (buildF fix ops) (searchNext sh exec walkFuel (buildF fix ops) s d).st.pgPgno
+      (searchNext sh exec walkFuel (buildF fix ops) s d).st.pgSubno ∧
+    ∀ q t : Nat, PgOk q → Matches exec (buildF fix ops) q t →
+      passRank s.stopPgno0 s.stopSubno0 (searchNext sh exec walkFuel (buildF fix ops) s d).st.pgPgno
+        (searchNext sh exec walkFuel (buildF fix ops) s d).st.pgSubno ≤ passRank s.stopPgno0 s.stopSubno0 q t :=
+  searchNext_first_success_fwd sh exec (buildF fix ops) s d hd hfresh (reachableF fix sh ops hops hnw _ hp).1 hp
+    (reachableF fix sh ops hops hnw _ hp).2 hS h
 
 /-- **search_exact_first_call.** (NEW: both directions)  On every reachable cache (D2 excluded by `NoWrap`), the first
 forward call of a pass reports SUCCESS if and only if some cached level one page contains the pattern, NOT_FOUND if and
 only if none does and something is cached at all, and CACHE_EMPTY otherwise.  Together with
 `search_exact_first_success`: it returns the first matching page in pass order when there is one. -/
-theorem search_exact_first_call (sh : Shape) (exec : Exec) (ops : List PutOp) (hops : ∀ o ∈ ops, o.subno ≤ 0x3F7F)
-    (hnw : NoWrap (build ops)) (s : SearchSt) (d : Int) (hd : d > 0) (hfresh : s.dir = 0) (hp : PgOk s.stopPgno0)
+theorem search_exact_first_call (fix : Bool) (sh : Shape) (exec : Exec) (ops : List PutOp) (hops : ∀ o ∈ ops, o.subno ≤ 0x3F7F)
+    (hnw : NoWrap (buildF fix ops)) (s : SearchSt) (d : Int) (hd : d > 0) (hfresh : s.dir = 0) (hp : PgOk s.stopPgno0)
     (hS : 0 ≤ s.stopSubno0 ∧ s.stopSubno0 ≤ 0xFFFF ∧ (sh.startExact = true ∨ s.stopSubno0 ≠ ANY_SUBNO)) :
-    ((searchNext sh exec walkFuel (build ops) s d).res = .ret SEARCH_SUCCESS ↔
-      ∃ p sub : Nat, PgOk p ∧ Matches exec (build ops) p sub) ∧
-    ((searchNext sh exec walkFuel (build ops) s d).res = .ret SEARCH_NOT_FOUND ↔
-      (build ops).nCached ≠ 0 ∧ ∀ p sub : Nat, PgOk p → ¬ Matches exec (build ops) p sub) ∧
-    ((searchNext sh exec walkFuel (build ops) s d).res = .ret SEARCH_CACHE_EMPTY ↔ (build ops).nCached = 0) := by
-  have hS1 := search_exact_first_success sh exec ops hops hnw s d hd hfresh hp hS
-  have hN1 := search_exact_not_found sh exec ops hops hnw s d hd hfresh hp hS
+    ((searchNext sh exec walkFuel (buildF fix ops) s d).res = .ret SEARCH_SUCCESS ↔
+      ∃ p sub : Nat, PgOk p ∧ Matches exec (buildF fix ops) p sub) ∧
+    ((searchNext sh exec walkFuel (buildF fix ops) s d).res = .ret SEARCH_NOT_FOUND ↔
+      (buildF fix ops).nCached ≠ 0 ∧ ∀ p sub : Nat, PgOk p → ¬ Matches exec (buildF fix ops) p sub) ∧
+    ((searchNext sh exec walkFuel (buildF fix ops) s d).res = .ret SEARCH_CACHE_EMPTY ↔ (buildF fix ops).nCached = 0) := by
+  have hS1 := search_exact_first_success fix sh exec ops hops hnw s d hd hfresh hp hS
+  have hN1 := search_exact_not_found fix sh exec ops hops hnw s d hd hfresh hp hS
   obtain ⟨f1, _⟩ := prepare_fresh_fwd sh (s := s) hd hfresh
   have hp' : PgOk (prepare sh s d).startPgno := by rw [f1]; exact hp
-  have hok' : StartOk sh (build ops) (prepare sh s d).startPgno := by rw [f1]; exact (reachable sh ops hops hnw _ hp).2
+  have hok' : StartOk sh (buildF fix ops) (prepare sh s d).startPgno := by rw [f1]; exact (reachableF fix sh ops hops hnw _ hp).2
   -- a cached page makes the cache count non-zero
-  have hcnt : ∀ p sub : Nat, Matches exec (build ops) p sub → (build ops).nCached ≠ 0 := by
+  have hcnt : ∀ p sub : Nat, Matches exec (buildF fix ops) p sub → (buildF fix ops).nCached ≠ 0 := by
     intro p sub ⟨e, hl, _, _⟩
-    apply build_counted ops
+    apply buildF_counted fix ops
     have hm := lookupX_mem hl
     exact ⟨_, List.ne_nil_of_mem hm⟩
-  by_cases h0 : (build ops).nCached = 0
-  · have he := searchNext_empty sh exec (build ops) s d h0
+  by_cases h0 : (buildF fix ops).nCached = 0
+  · have he := searchNext_empty sh exec (buildF fix ops) s d h0
     refine ⟨?_, ?_, ?_⟩
     · constructor
       · intro h; rw [he] at h; exact absurd (Res.ret.inj h) (by decide)
@@ -290,7 +334,7 @@ theorem search_exact_first_call (sh : Shape) (exec : Exec) (ops : List PutOp) (h
       · intro h; rw [he] at h; exact absurd (Res.ret.inj h) (by decide)
       · intro h; exact absurd h0 h.1
     · exact ⟨fun _ => h0, fun _ => he⟩
-  · have hdich := searchNext_fwd_status sh exec (build ops) s d hd h0 hp' hok'
+  · have hdich := searchNext_fwd_status sh exec (buildF fix ops) s d hd h0 hp' hok'
     refine ⟨?_, ?_, ?_⟩
     · constructor
       · intro h; exact ⟨_, _, (hS1 h).1, (hS1 h).2.1⟩
@@ -310,11 +354,30 @@ theorem search_exact_first_call (sh : Shape) (exec : Exec) (ops : List PutOp) (h
 
 /-- non-vacuity: a fresh search created by `vbi_search_new (0x100, VBI_ANY_SUBNO)` on a one-page cache meets every
 hypothesis of the three search_exact theorems -/
-example : ∃ (ops : List PutOp) (s : SearchSt), (∀ o ∈ ops, o.subno ≤ 0x3F7F) ∧ NoWrap (build ops) ∧ s.dir = 0 ∧
+example (fix : Bool) : ∃ (ops : List PutOp) (s : SearchSt), (∀ o ∈ ops, o.subno ≤ 0x3F7F) ∧ NoWrap (buildF fix ops) ∧ s.dir = 0 ∧
     PgOk s.stopPgno0 ∧ (0 ≤ s.stopSubno0 ∧ s.stopSubno0 ≤ 0xFFFF ∧ s.stopSubno0 ≠ ANY_SUBNO) ∧
-    searchNew 0x100 ANY_SUBNO 2 = some s ∧ (build ops).nCached ≠ 0 :=
-  ⟨[⟨0x100, 0, 0, []⟩], (searchNew 0x100 ANY_SUBNO 2).getD {}, by decide, noWrap_of_few _ (by decide), by decide,
-   ⟨by decide, by decide⟩, ⟨by decide, by decide, by decide⟩, by rfl, by decide +kernel⟩
+    searchNew 0x100 ANY_SUBNO 2 = some s ∧ (buildF fix ops).nCached ≠ 0 :=
+  ⟨[⟨0x100, 0, 0, []⟩], (searchNew 0x100 ANY_SUBNO 2).getD {}, by decide, noWrapF_of_few fix _ (by decide), by decide,
+   ⟨by decide, by decide⟩, ⟨by decide, by decide, by decide⟩, by rfl, by cases fix <;> decide +kernel⟩
+
+/-- **search_exact_first_call_repaired.** (NEW: `search_exact_first_call` on the repaired shape of
+`_vbi_cache_put_page`, the exclusion of C17-D2 gone)  After EVERY history of page stores the first forward call of a pass
+reports SUCCESS if and only if some cached level one page contains the pattern - and then returns the first one in pass
+order -, NOT_FOUND if and only if none does and something is cached, CACHE_EMPTY otherwise. -/
+theorem search_exact_first_call_repaired (sh : Shape) (exec : Exec) (ops : List PutOp) (hops : ∀ o ∈ ops, o.subno ≤ 0x3F7F)
+    (s : SearchSt) (d : Int) (hd : d > 0) (hfresh : s.dir = 0) (hp : PgOk s.stopPgno0)
+    (hS : 0 ≤ s.stopSubno0 ∧ s.stopSubno0 ≤ 0xFFFF ∧ (sh.startExact = true ∨ s.stopSubno0 ≠ ANY_SUBNO)) :
+    (((searchNext sh exec walkFuel (buildF true ops) s d).res = .ret SEARCH_SUCCESS ↔
+      ∃ p sub : Nat, PgOk p ∧ Matches exec (buildF true ops) p sub) ∧
+    ((searchNext sh exec walkFuel (buildF true ops) s d).res = .ret SEARCH_NOT_FOUND ↔
+      (buildF true ops).nCached ≠ 0 ∧ ∀ p sub : Nat, PgOk p → ¬ Matches exec (buildF true ops) p sub) ∧
+    ((searchNext sh exec walkFuel (buildF true ops) s d).res = .ret SEARCH_CACHE_EMPTY ↔ (buildF true ops).nCached = 0)) ∧
+    ((searchNext sh exec walkFuel (buildF true ops) s d).res = .ret SEARCH_SUCCESS →
+      ∀ q t : Nat, PgOk q → Matches exec (buildF true ops) q t →
+        passRank s.stopPgno0 s.stopSubno0 (searchNext sh exec walkFuel (buildF true ops) s d).st.pgPgno
+          (searchNext sh exec walkFuel (buildF true ops) s d).st.pgSubno ≤ passRank s.stopPgno0 s.stopSubno0 q t) :=
+  ⟨search_exact_first_call true sh exec ops hops (noWrap_repaired ops) s d hd hfresh hp hS,
+   fun h => (search_exact_first_success true sh exec ops hops (noWrap_repaired ops) s d hd hfresh hp hS h).2.2⟩
 
 /-- **highlight_real.** The cells `highlight` paints are exactly the cells of the haystack characters
 [first + ms, first + me): `layout` lists, per haystack character (row separators included), the cells it occupies. -/
@@ -379,6 +442,23 @@ theorem stats_count_256 :
     (cexD2.slots 0x100).chain.length = 256 ∧ (cexD2.slots 0x100).stat = ⟨256, 1, 0x100⟩ ∧
     inRange (cexD2.stat 0x100) 0x100 = true :=
   cexD2_facts
+
+/-- **stats_count_repaired.** The history of `stats_count_256` on the REPAIRED shape of `_vbi_cache_put_page`
+(fixes/C10-put-replaces-all-versions.diff): every store with sub-code 0x100 (single-version key) deletes the page stored
+with sub-code 1 as well; one page is cached at the end, `n_subpages` is 1, the window is [0x100, 0x100]. -/
+theorem stats_count_repaired :
+    (cexD2R.slots 0x100).chain.map (·.subno) = [0x100] ∧ (cexD2R.slots 0x100).stat = ⟨1, 0x100, 0x100⟩ ∧
+    cexD2R.nCached = 1 :=
+  cexD2R_facts
+
+/-- **current_store_shape.** The store the driver runs against the real code (`putCur`) is one of the two shapes the
+theorems cover, the one translate/gen_cache.py read from /repo's cache.c on this run. -/
+theorem current_store_shape :
+    (∀ c pgno subno func text tag, putCur c pgno subno func text tag =
+      putF Zvbi.Gen.Cache.putReplacesAllVersions c pgno subno func text tag) ∧
+    (∀ c pgno subno func text tag, putF false c pgno subno func text tag = put c pgno subno func text tag) ∧
+    (∀ c pgno subno func text tag, putF true c pgno subno func text tag = putR c pgno subno func text tag) :=
+  ⟨fun _ _ _ _ _ _ => rfl, fun _ _ _ _ _ _ => rfl, fun _ _ _ _ _ _ => rfl⟩
 
 /-- **walk_exact_lookup_3f7f (was walk_order_counterexample_any, C17-D5 repaired by ce86777).** Hex page 1A2 cached
 with sub-codes 0x3F7E and 0x3F7F: the position (1A2, 0x3F7F) is looked up exactly; the walk hands sub-page 0x3F7E and
